@@ -34,6 +34,9 @@ def generate(rng, tier):
     n = rng.choice([1, 2, 3])
     svcs = gen_services(rng, n, types=["_http._tcp.local.", "_ipp._tcp.local."][:rng.choice([1, 2])],
                         hosts=["hostr.local."], custom_ttl=rng.random() < 0.3)
+    if rng.random() < 0.15:
+        for s_ in svcs:
+            s_["other_ttl"] = rng.choice([60, 300])  # PTR/TXT below the 1125 s floor that caches apply to pointers
     dual = rng.random() < 0.3
     layout = rng.choice(["default", "multi", "multi"]) if not dual else "multi"
     ops = [{"t": 0.0, "op": "host", "h": "R", "ip": "10.0.0.1", "layout": layout, "ip6": "fe80::1" if dual else None},
